@@ -39,7 +39,10 @@ type c14Sys struct {
 	runner *jobs.Runner
 	sec    *security.ServiceCore
 	pm     *security.ProviderManager
+	tps    *security.TokenProviders
 }
+
+var c14ProviderNames = []string{"prov0", "prov1", "Upstream-A"}
 
 var c14KeyDir string // node key generated once per child
 
@@ -64,6 +67,7 @@ func c14Open(dir string) *c14Sys {
 	s.pm = security.NewProviderManager(env, st, zap.NewNop().Sugar())
 	s.sec = security.NewServiceCore(env)
 	tps := security.NewTokenProviders(zap.NewNop().Sugar(), s.pm, s.sec)
+	s.tps = tps
 	s.runner = jobs.NewRunner(env, st, tps, bus, &statsd.NoOpClient{})
 	s.sched = jobs.NewScheduler(env, st, dsm, s.runner)
 	return s
@@ -115,6 +119,18 @@ func genC14Case(r *rand.Rand) C14Case {
 			return ""
 		}
 		return l[r.Intn(len(l))]
+	}
+	if r.Intn(5) == 0 {
+		// directed opening: a login provider whose name has upper-case letters is added and deleted again
+		c.Ops = append(c.Ops, C14Op{Kind: "addprov", Client: "Upstream-A"}, C14Op{Kind: "delprov", Client: "Upstream-A"})
+		provs["Upstream-A"] = false
+		tags["providers"] = true
+	}
+	if r.Intn(5) == 0 {
+		// directed opening: a dataset's public namespaces are narrowed through its meta-entity
+		c.Ops = append(c.Ops, C14Op{Kind: "create", DS: "dc", To: "pubns"}, C14Op{Kind: "setpubns", DS: "dc", To: "one"})
+		live["dc"] = true
+		tags["dsmgmt"], tags["public-namespaces-updated"] = true, true
 	}
 	if r.Intn(4) == 0 {
 		// directed opening: a job runs (sync state stored), is deleted and defined again under the same id
@@ -210,7 +226,7 @@ func genC14Case(r *rand.Rand) C14Case {
 			c.Ops = append(c.Ops, C14Op{Kind: "delacl", Client: id})
 			tags["security"] = true
 		default:
-			id := fmt.Sprintf("prov%d", r.Intn(2))
+			id := c14ProviderNames[r.Intn(len(c14ProviderNames))]
 			if provs[id] && r.Intn(2) == 0 {
 				provs[id] = false
 				c.Ops = append(c.Ops, C14Op{Kind: "delprov", Client: id})
@@ -364,6 +380,26 @@ func c14Apply(ctx *Ctx, id string, s *sdRun, sys *c14Sys, op C14Op) error {
 			return err
 		}
 		s.m.Apply(op.DS, op.Ents)
+	case "setpubns":
+		// the way a client changes a dataset's public namespaces: it writes the dataset's meta-entity to core.Dataset
+		if s.m.Live(op.DS) == nil {
+			return nil
+		}
+		cd := sys.core.Dsm.GetDataset("core.Dataset")
+		nsi, err := sys.core.Store.NamespaceManager.GetDatasetNamespaceInfo()
+		if err != nil {
+			return err
+		}
+		res, err := cd.GetEntities("", 1000)
+		if err != nil {
+			return err
+		}
+		for _, e := range res.Entities {
+			if e.ID == nsi.DatasetPrefix+":"+op.DS {
+				e.Properties[nsi.PublicNamespacesKey] = []interface{}{gen.NsA}
+				return cd.StoreEntities([]*server.Entity{e})
+			}
+		}
 	case "nsquery":
 		_, _ = sys.core.Store.GetEntity(op.To, nil, true)
 		_, _ = obs.Related(sys.core.Store, op.To, "*", false, nil, 0)
@@ -445,10 +481,11 @@ func c14Apply(ctx *Ctx, id string, s *sdRun, sys *c14Sys, op C14Op) error {
 	case "delacl":
 		sys.sec.DeleteClientAccessControls(op.Client)
 	case "addprov":
-		return sys.pm.AddProvider(security.ProviderConfig{Name: op.Client, Type: "basic",
+		// through the token providers, as the provider endpoints of the web layer do
+		return sys.tps.Add(security.ProviderConfig{Name: op.Client, Type: "basic",
 			User: &security.ValueReader{Type: "text", Value: "u"}, Password: &security.ValueReader{Type: "text", Value: "p"}})
 	case "delprov":
-		return sys.pm.DeleteProvider(op.Client)
+		return sys.tps.DeleteProvider(op.Client)
 	}
 	return nil
 }
@@ -474,6 +511,7 @@ func c14Snapshot(s *sdRun, sys *c14Sys) map[string]string {
 		sort.Slice(l, func(i, j int) bool { return l[i].ID < l[j].ID })
 		snap["dsconfig|"+d] = jsonStr(map[string]any{"proxy": ds.ProxyConfig, "virtual": ds.VirtualDatasetConfig, "publicNamespaces": ds.PublicNamespaces, "isProxy": ds.IsProxy(), "isVirtual": ds.IsVirtual()})
 		snap["list|"+d] = jsonStr(l) // includes recorded and internal ids
+
 		res, _ := ds.GetEntities("", 2)
 		if res != nil {
 			snap["listtoken|"+d] = res.ContinuationToken
@@ -512,6 +550,13 @@ func c14Snapshot(s *sdRun, sys *c14Sys) map[string]string {
 		}
 	}
 	snap["namespaces|"] = jsonStr(st.GetGlobalContext(false).Namespaces)
+	// the context each dataset hands out with its entities (after the queries above, which themselves introduce the
+	// namespaces of the ids they ask for)
+	for _, d := range names {
+		if res0, err := sys.core.Dsm.GetDataset(d).GetEntities("", 1); err == nil && res0 != nil && res0.Context != nil {
+			snap["context|"+d] = jsonStr(res0.Context.Namespaces)
+		}
+	}
 	// jobs
 	jl := sys.sched.ListJobs()
 	sort.Slice(jl, func(i, j int) bool { return jl[i].ID < jl[j].ID })
@@ -542,5 +587,10 @@ func c14Snapshot(s *sdRun, sys *c14Sys) map[string]string {
 	pl, _ := sys.pm.ListProviders()
 	sort.Slice(pl, func(i, j int) bool { return pl[i].Name < pl[j].Name })
 	snap["providers|"] = jsonStr(pl)
+	// the providers the running hub would use for outgoing requests (its in-memory view)
+	for _, n := range c14ProviderNames {
+		_, ok := sys.tps.Get(strings.ToLower(n))
+		snap["provider-in-use|"+n] = fmt.Sprint(ok)
+	}
 	return snap
 }
